@@ -929,6 +929,175 @@ exec go "$@"
     return len(jobs)
 
 
+# ---------------------------------------------------------------- library use: sequences of calls in one process
+def seq_file(name, expr, pkg, ident):
+    form = "none" if expr is None else "gobuild"
+    return {"name": name, "form": form, "expr": expr, "pkg": pkg, "broken": None, "ident": ident, "text": file_text(form, expr, None, pkg, ident, None)}
+
+
+def gen_sequence(rng, si, host):
+    """one directory and 3-6 calls of mage.Magefiles on it IN ONE PROCESS; between the calls nothing is created, removed or
+    renamed: constraint lines are rewritten in place, contents are swapped between two files, the platform alternates"""
+    d = gen_dir(rng, 100000 + si)
+    pkgs = ["main", "main", "other"] if d["mixed"] else ["main"]
+    state = [dict(f) for f in d["files"]]
+    q = gen_request(rng, host)
+    plat = forced_platform(host, q["goos"], q["goarch"])
+    other = "plan9" if plat[0] != "plan9" else "windows"
+    M = ("tag", "mage")
+    steps = []
+    for k in range(rng.choice([3, 4, 4, 5, 6])):
+        edits, kind = [], "first"
+        if k > 0:
+            r = rng.random()
+            gos = [i for i, f in enumerate(state) if f["name"].endswith(".go")]
+            if r < 0.55 and gos:
+                kind = "retag"
+                for i in rng.sample(gos, min(len(gos), rng.choice([1, 1, 2]))):
+                    f = state[i]
+                    choice = rng.random()
+                    if choice < 0.6:
+                        new = rng.choice([M, None, ("and", M, ("tag", other)), ("and", M, ("tag", plat[0])), ("not", M), ("or", M, ("tag", "foo")), ("and", M, ("not", ("tag", plat[1])))])
+                        if new == f["expr"] and not f["broken"]:
+                            new = None if new is not None else M
+                        nf = seq_file(f["name"], new, f["pkg"] if f["pkg"] != "documentation" else "main", f["ident"])
+                    else:
+                        nf = gen_file(rng, f["name"], int(f["ident"][1:]), pkgs, False)
+                    state[i] = nf
+                    edits.append({"name": nf["name"], "text": nf["text"]})
+            elif r < 0.75 and len(gos) >= 2:
+                kind = "swap"
+                i, j = rng.sample(gos, 2)
+                a, b = state[i], state[j]
+                state[i] = dict(b, name=a["name"])
+                state[j] = dict(a, name=b["name"])
+                edits += [{"name": state[i]["name"], "text": state[i]["text"]}, {"name": state[j]["name"], "text": state[j]["text"]}]
+            elif r < 0.9:
+                kind = "platform"
+                q = dict(gen_request(rng, host), isdir=q["isdir"])
+            else:
+                kind = "same"
+        steps.append({"kind": kind, "edits": edits, "restore_file_mtime": rng.random() < 0.5, "restore_dir_mtime": rng.random() < 0.5,
+                      "goos": q["goos"], "goarch": q["goarch"], "isdir": q["isdir"], "state": [dict(f) for f in state]})
+    return {"id": si, "files0": d["files"], "mixed": d["mixed"], "steps": steps}
+
+
+def run_sequences(ctx, binp, host, supported, release, nrelease, report):
+    rng = ctx.rng
+    seqs = [gen_sequence(rng, si, host) for si in range(40 if ctx.quick else 600)]
+    if ctx.replay and ctx.replay.get("case", {}).get("seq"):
+        sq = ctx.replay["case"]["seq"]
+        for f in sq["files0"]:
+            f["expr"] = tup(f["expr"])
+        for st in sq["steps"]:
+            for f in st["state"]:
+                f["expr"] = tup(f["expr"])
+        seqs = [sq]
+    variants = [("unset", {}), ("foreign", {"GOOS": "windows", "GOARCH": "arm64"})]
+    if ctx.replay and ctx.replay.get("case", {}).get("seq"):
+        variants = [(ctx.replay["case"]["env_name"], ctx.replay["case"]["env"])]
+    root = os.path.join(ctx.tmp, "seqs")
+
+    def one(v):
+        vname, envv = v
+        reqs = []
+        for sq in seqs:
+            path = os.path.join(root, vname, "s%05d" % sq["id"])
+            write_dir(path, {"files": sq["files0"]})
+            reqs.append({"op": "magefiles_seq", "raw": {"dir": path, "cache": "", "steps": [
+                {k: st[k] for k in ("edits", "restore_file_mtime", "restore_dir_mtime", "goos", "goarch", "isdir")} for st in sq["steps"]]}})
+        lines = [json.dumps({"op": "buildctx"})] + [json.dumps(r) for r in reqs]
+        rc, out, err = sh([binp], input=("\n".join(lines) + "\n").encode(), env=proc_env(envv), timeout=1800)
+        ans = [json.loads(l) for l in out.splitlines() if l.strip()]
+        if rc != 0 or len(ans) != len(reqs) + 1 or any(isinstance(a, dict) and "error" in a for a in ans):
+            raise BuildError("unitrun (magefiles_seq) failed: %s %s" % (err[-1000:], [a for a in ans if isinstance(a, dict) and "error" in a][:2]))
+        return ans[0], ans[1:]
+    results = pmap(one, variants)
+    procs = [proc_coq(envv, dflt) for (vname, envv), (dflt, _) in zip(variants, results)]
+    items, meta, calls, kinds = [], [], 0, {}
+    for pi, ((vname, envv), (dflt, answers)) in enumerate(zip(variants, results)):
+        for sq, res in zip(seqs, answers):
+            for k, (st, a) in enumerate(zip(sq["steps"], res)):
+                calls += 1
+                kinds[st["kind"]] = kinds.get(st["kind"], 0) + 1
+                d = {"id": sq["id"], "files": sorted(st["state"], key=lambda f: f["name"].encode()), "mixed": sq["mixed"]}
+                q = {k2: st[k2] for k2 in ("goos", "goarch", "isdir")}
+                a = {"files": a["files"], "err": a["err"]}
+                what = oracle(d, q, host, envv, dflt, supported, nrelease, a["files"], a["err"])
+                case = {"seq": {"id": sq["id"], "files0": sq["files0"], "mixed": sq["mixed"], "steps": sq["steps"][:k + 1]}, "failing_call": k, "env_name": vname, "env": envv,
+                        "request": q, "implementation": a, "all_results_so_far": [{"files": x["files"], "err": x["err"]} for x in res[:k + 1]]}
+                if what and what.get("clause") != "cgo-valuation-from-startup-platform":
+                    what = dict(what, clause="call %d of a sequence in one process (after: %s; file mtimes %s, directory mtime %s): %s" % (
+                        k + 1, st["kind"], "restored" if st["restore_file_mtime"] else "new", "restored" if st["restore_dir_mtime"] else "as is", what["clause"]))
+                report(what, case, d, envv)
+                items.append(case_coq(d, host, supported, release, procs, [run_coq(pi, q, a)]))
+                meta.append(case)
+    header = HEADER + "Definition release := %s.\nDefinition procs : list proc := %s.\n" % (coq_list([coq_str(t) for t in release]), coq_list(procs))
+    per_shard = max(8, (len(items) + NCPU - 1) // NCPU)
+    mism = ctx.coq_eval_shards("cases_C10_seq", header, items, per_shard=per_shard, timeout=900 if ctx.quick else 3000) if items else []
+    if mism and not ctx.violations:
+        for idx, body in mism[:3]:
+            ctx.violation({"kind": "model-vs-implementation", "correspondence": "Run/eval_C10.mismatches (sequence of calls in one process)", "model_says": body[:300]},
+                          case=meta[idx], found_input=False)
+    ctx.coverage["sequence_calls"] = calls
+    ctx.coverage["sequence_steps_by_kind"] = kinds
+    ctx.coverage["sequence_model_mismatches"] = len(mism)
+    return calls
+
+
+def run_invoke_sequences(ctx, binp, host, nrelease):
+    """mage.Invoke (List) called repeatedly in one process on one project; constraint lines rewritten in place between the
+    calls, with the directory's modification time put back (Invoke itself touches the directory)"""
+    rng = ctx.rng
+    mg = projlib.Mage(ctx)
+    M = ("tag", "mage")
+    other = "plan9" if host[0] != "plan9" else "windows"
+    jobs = []
+    for n in range(3 if ctx.quick else 10):
+        files = [e2e_file("magefile.go", M, "Build"), e2e_file("tasks.go", rng.choice([None, ("and", M, ("tag", other))]), "Tasks"),
+                 e2e_file("extra.go", rng.choice([M, ("and", M, ("tag", host[0]))]), "Extra")]
+        states = [files]
+        cur = list(files)
+        for k in range(2):
+            i = rng.randrange(1, 3) if k == 0 else rng.randrange(0, 3)
+            f = cur[i]
+            new = rng.choice([x for x in (M, None, ("and", M, ("tag", other)), ("and", M, ("tag", host[0]))) if x != f["expr"]])
+            cur = list(cur)
+            cur[i] = e2e_file(f["name"], new, f["ident"])
+            states.append(cur)
+        jobs.append(states)
+    rc_ = (ctx.replay or {}).get("case") or {}
+    if rc_.get("invoke_seq"):
+        jobs = [[[dict(f, expr=tup(f["expr"])) for f in st] for st in rc_["invoke_seq"]["states"]]]
+
+    def one(states):
+        proj = mg.project({f["name"]: f["text"] for f in states[0]}, probe=False)
+        steps = [{"edits": [], "invoke": True, "goos": "", "goarch": "", "isdir": False, "restore_dir_mtime": False, "restore_file_mtime": False}]
+        for prev, cur in zip(states, states[1:]):
+            steps.append({"edits": [{"name": f["name"], "text": f["text"]} for f, g in zip(cur, prev) if f["text"] != g["text"]], "invoke": True,
+                          "goos": "", "goarch": "", "isdir": False, "restore_dir_mtime": True, "restore_file_mtime": True})
+        line = json.dumps({"op": "magefiles_seq", "raw": {"dir": proj, "cache": proj + ".cache", "steps": steps}}) + "\n"
+        rc, out, err = sh([binp], input=line.encode(), env=mg.env(), cwd=proj, timeout=900)
+        try:
+            return proj, json.loads(out.splitlines()[0])
+        except Exception:
+            raise BuildError("unitrun (invoke sequence) failed: rc=%d %s" % (rc, err[-1500:]))
+    n = 0
+    for states, (proj, res) in zip(jobs, pmap(one, jobs, jobs=4)):
+        for k, (st, a) in enumerate(zip(states, res)):
+            n += 1
+            d = {"id": -1, "files": sorted(st, key=lambda f: f["name"].encode()), "mixed": False}
+            want = sorted(f["ident"].lower() for f in st if f["name"] in expected_files(d, host[0], host[1], False, False, nrelease)[0])
+            got = sorted(projlib.parse_list(a["stdout"])["targets"])
+            ok = (a["rc"] != 0 and not got) if not want else (a["rc"] == 0 and got == want)
+            if not ok and len(ctx.violations) < 8:
+                ctx.violation({"kind": "oracle", "clause": "call %d of mage.Invoke(List) in one process lists %s (rc=%d), the files as they are now %s define %s" % (
+                    k + 1, got, a["rc"], [(f["name"], expr_text(f["expr"]) if f["expr"] else None) for f in st], want)},
+                    case={"invoke_seq": {"states": states[:k + 1]}, "observed": res[:k + 1]})
+    ctx.coverage["invoke_sequence_calls"] = n
+    return n
+
+
 # ---------------------------------------------------------------- run
 def run(ctx):
     ctx.prove(["Props/C10.vo", "Run/eval_C10.vo"])
@@ -969,7 +1138,7 @@ def run(ctx):
         reqs = [dict(c["request"], di=0)]
         variants = [(c["env_name"], c["env"])]
         ndirs = 0
-    if ctx.replay and ctx.replay.get("case", {}).get("e2e"):
+    if ctx.replay and (ctx.replay.get("case", {}).get("e2e") or ctx.replay.get("case", {}).get("seq") or ctx.replay.get("case", {}).get("invoke_seq")):
         ndirs = 0
     for di in range(ndirs):
         d = gen_dir(rng, di)
@@ -1001,6 +1170,21 @@ def run(ctx):
     meta_by_dir = {}
     known_seen = {}
     procs = [proc_coq(envv, dflt) for (vname, envv), (dflt, answers) in zip(variants, results)]
+    def report(what, case, d, envv):
+        if not what:
+            return
+        if what.get("clause") == "cgo-valuation-from-startup-platform":
+            known_seen[what["variant"]] = known_seen.get(what["variant"], 0) + 1
+            if known_seen[what["variant"]] == 1:
+                ctx.log("known shape (%s): %s" % (what["variant"], what["detail"]))
+                ctx.sample({"known_finding_example": what["variant"], "detail": what["detail"], "env": envv, "request": case["request"],
+                            "files": [(f["name"], expr_text(f["expr"]) if f["expr"] else None) for f in d["files"]]}, limit=8)
+            what = {k: what[k] for k in ("kind", "clause", "variant")}
+        if len(ctx.violations) < 5:
+            ctx.violation(what, case=case)
+        else:
+            ctx.add("further_oracle_failures_not_written")
+
     for pi, ((vname, envv), (dflt, answers)) in enumerate(zip(variants, results)):
         for q, w, a in zip(reqs, wire, answers):
             d = dirs[q["di"]]
@@ -1012,18 +1196,7 @@ def run(ctx):
             what = oracle(d, q, host, envv, dflt, supported, nrelease, a["files"], a["err"])
             case = {"dir": {k: d[k] for k in ("id", "files", "mixed")}, "request": {k: q[k] for k in ("goos", "goarch", "isdir")}, "env_name": vname, "env": envv,
                     "implementation": {"files": a["files"], "err": a["err"]}, "build_default": {k: dflt[k] for k in ("goos", "goarch", "cgo")}}
-            if what:
-                if what.get("clause") == "cgo-valuation-from-startup-platform":
-                    known_seen[what["variant"]] = known_seen.get(what["variant"], 0) + 1
-                    if known_seen[what["variant"]] == 1:
-                        ctx.log("known shape (%s): %s" % (what["variant"], what["detail"]))
-                        ctx.sample({"known_finding_example": what["variant"], "detail": what["detail"], "env": envv, "request": case["request"],
-                                    "files": [(f["name"], expr_text(f["expr"]) if f["expr"] else None) for f in d["files"]]}, limit=8)
-                    what = {k: what[k] for k in ("kind", "clause", "variant")}
-                if len(ctx.violations) < 5:
-                    ctx.violation(what, case=case)
-                else:
-                    ctx.add("further_oracle_failures_not_written")
+            report(what, case, d, envv)
             runs_by_dir.setdefault(q["di"], []).append(run_coq(pi, q, a))
             meta_by_dir.setdefault(q["di"], []).append(case)
             h = case_hash([q["di"], q["goos"], q["goarch"], q["isdir"], vname])
@@ -1079,8 +1252,15 @@ def run(ctx):
                 ctx.violation({"kind": "oracle-vs-go-list", "clause": "the oracle and `go list -tags mage` disagree: %s vs %s" % (sorted(r[1]), sorted(r[0]))},
                               case={"dir": {k: d[k] for k in ("id", "files", "mixed")}, "request": {k: q[k] for k in ("goos", "goarch", "isdir")}, "env_name": "unset", "env": {}},
                               found_input=False)
+    rcase = (ctx.replay or {}).get("case") or {}
+    if not ctx.replay or rcase.get("seq"):
+        nseq = run_sequences(ctx, binp, host, supported, release, nrelease, report)
+        ctx.log("library use: %d calls of mage.Magefiles in sequences within one process" % nseq)
+    if not ctx.replay or rcase.get("invoke_seq"):
+        ninv = run_invoke_sequences(ctx, binp, host, nrelease)
+        ctx.log("library use: %d calls of mage.Invoke in sequences within one process" % ninv)
     ne2e = 0
-    if not (ctx.replay and ctx.replay.get("case", {}).get("dir")):
+    if not (rcase.get("dir") or rcase.get("seq") or rcase.get("invoke_seq")):
         base_tool = base["tooltags"]
         ne2e = run_e2e(ctx, host, nrelease, release, base_tool)
         ctx.log("end-to-end: %d projects" % ne2e)
